@@ -73,7 +73,7 @@ def contracted():
 
 def gen_case(rng):
     nd = rng.choice([2, 2, 3])
-    T = rng.randint(1, 5)
+    T = rng.randint(1, 5) if rng.random() < 0.85 else rng.randint(11, 13)
     shape = (8, 8) if nd == 2 else (3, 5, 5)
     pool = rng.choice([[1, 2, 3, 4], [1, 2, 3, 4, 5, 6, 7], [3, 9, 27]])
     src = np.zeros((T, *shape), dtype=rng.choice([np.int32, np.int64, np.uint16, np.uint8,
@@ -170,7 +170,9 @@ def judge_direct(case):
     return probs
 
 
-def judge_import(case):
+def judge_import(case, how="array", prev=None):
+    """how: 'array' (in-memory), 'folder' (one TIFF per frame, unpadded frame numbers, given
+    as a path), 'builder' (a builder object that has already imported `prev`)."""
     import pandas as pd
 
     from funtracks.import_export import tracks_from_df
@@ -201,11 +203,44 @@ def judge_import(case):
     with warnings.catch_warnings():
         warnings.simplefilter("ignore")
         try:
-            tracks = tracks_from_df(df, segmentation=src.copy(), scale=scale, node_name_map=nm)
+            if how == "folder":
+                import shutil
+
+                import tifffile
+
+                from .. import env
+
+                wd = env.workdir("c13tif")
+                try:
+                    for t in range(src.shape[0]):
+                        tifffile.imwrite(wd / f"frame_{t}.tif", src[t])
+                    tracks = tracks_from_df(df, segmentation=wd, scale=scale,
+                                            node_name_map=nm)
+                    _ = np.asarray(tracks.segmentation)
+                finally:
+                    shutil.rmtree(wd, ignore_errors=True)
+            elif how == "builder" and prev is not None:
+                from funtracks.import_export import CSVTracksBuilder
+
+                b = CSVTracksBuilder()
+                pdf, pseg, pscale = prev
+                b.read_header(pdf)
+                b.node_name_map = dict(nm)
+                try:
+                    b.build(pdf, pseg, scale=pscale)
+                except Exception:
+                    pass  # the earlier import is only there to leave its traces in the builder
+                b.read_header(df)
+                b.node_name_map = dict(nm)
+                tracks = b.build(df, src.copy(), scale=scale)
+            else:
+                tracks = tracks_from_df(df, segmentation=src.copy(), scale=scale,
+                                        node_name_map=nm)
         except Exception as e:
             return [("import-raised", f"tracks_from_df raised {type(e).__name__}: {e} "
                      f"(scheme {case['scheme']}, ids {ids})",
                      f"C13/import/raised/{type(e).__name__}/{case['scheme']}")], True
+    case["_last_inputs"] = (df, src.copy(), scale)
     probs = []
     got = np.asarray(tracks.segmentation).astype(np.int64)
     if not np.array_equal(got, exp):
@@ -242,6 +277,7 @@ def run_shard(spec):
     rng = random.Random(spec["seed"])
     acc = common.new_acc()
     STATS["post"] = 0
+    prev_inputs = None
     for i in range(spec["n"]):
         case = gen_case(rng)
         acc["counters"]["cases"] = acc["counters"].get("cases", 0) + 1
@@ -251,7 +287,22 @@ def run_shard(spec):
                 probs = judge_direct(case)
                 ran = True
             else:
-                probs, ran = judge_import(case)
+                how = rng.choice(["array", "array", "folder", "builder"])
+                if how == "builder" and (prev_inputs is None
+                                         or prev_inputs[1].ndim != case["src"].ndim):
+                    how = "array"
+                if how == "folder" and case["src"].shape[0] < 2:
+                    how = "array"  # a folder with one image is not a movie
+                probs, ran = judge_import(case, how, prev_inputs)
+                if "_last_inputs" in case:
+                    prev_inputs = case.pop("_last_inputs")
+                if ran:
+                    acc["counters"][f"import-{how}"] = \
+                        acc["counters"].get(f"import-{how}", 0) + 1
+                    if how == "folder" and case["src"].shape[0] >= 11:
+                        acc["counters"]["import-folder-11+frames"] = \
+                            acc["counters"].get("import-folder-11+frames", 0) + 1
+                probs = [(c, w, k + ("" if how == "array" else f"/{how}")) for c, w, k in probs]
             if ran:
                 acc["evaluations"] += 1
                 acc["counters"][f"route-{route}"] = acc["counters"].get(f"route-{route}", 0) + 1
@@ -261,7 +312,9 @@ def run_shard(spec):
             for clause, what, key in probs[:1]:
                 acc["violations"].append({
                     "clause": clause, "what": what, "key": key,
-                    "replay": {"case": {**{k: v for k, v in case.items() if k != "src"},
+                    "replay": {"how": (how if route == "import" else None),
+                               "case": {**{k: v for k, v in case.items()
+                                           if k not in ("src", "_last_inputs")},
                                         "src": case["src"].tolist(),
                                         "dtype": str(case["src"].dtype)}, "route": route}})
         if 0 in case["ids"]:
@@ -292,7 +345,8 @@ def floors(tier):
     return {"cases": 2000, "route-direct": 2000, "route-import": 1500, "cases-with-id-0": 150,
             "cases-with-unlisted": 500, "cases-colliding-ids": 500,
             "postcondition-evaluations": 2500, "cases-rows-not-grouped-by-time": 500,
-            "cases-id-at-dtype-max": 100}
+            "cases-id-at-dtype-max": 100, "import-folder": 300, "import-builder": 300,
+            "import-folder-11+frames": 30}
 
 
 def replay(doc):
@@ -303,5 +357,6 @@ def replay(doc):
     if doc["route"] == "direct":
         probs = judge_direct(case)
     else:
-        probs, _ = judge_import(case)
+        how = doc.get("how") or "array"
+        probs, _ = judge_import(case, how if how != "builder" else "array")
     return [{"clause": c, "what": w, "key": k} for c, w, k in probs]
